@@ -265,7 +265,7 @@ def _(vm, a, ci):
 
 
 # ---- slices
-@path_rx(r'<impl \[.*?\]>::(len|is_empty|iter|iter_mut|first|last|first_mut|last_mut|get|get_mut|get_unchecked|get_unchecked_mut|contains|to_vec|split_first|split_last|as_ptr|as_ptr_range|into_vec|concat|join|sort|sort_by|sort_by_key|sort_unstable|sort_unstable_by|sort_unstable_by_key|reverse|split_at|starts_with|ends_with|windows|chunks)')
+@path_rx(r'<impl \[.*?\]>::(len|is_empty|iter|iter_mut|first|last|first_mut|last_mut|get|get_mut|get_unchecked|get_unchecked_mut|contains|to_vec|split_first|split_last|as_ptr|as_ptr_range|into_vec|concat|join|sort|sort_by|sort_by_key|sort_unstable|sort_unstable_by|sort_unstable_by_key|reverse|split_at|starts_with|ends_with|windows|chunks|chunks_exact|swap|fill)')
 def _(vm, a, ci):
     m = ci.method
     if m == 'into_vec': return Adt('Vec', 0, [vm.ref_get(vm.box_ptr(a[0]))])
@@ -331,6 +331,26 @@ def _(vm, a, ci):
         k = a[1]
         if k > n: raise PanicEdge('panic', 'split_at: mid > len')
         return tup(SliceRef(s.ref, s.start, s.start + k), SliceRef(s.ref, s.start + k, s.end))
+    if m in ('windows', 'chunks', 'chunks_exact'):
+        k = a[1]
+        if not isinstance(k, int): raise Unmodelled(f'{m} with a symbolic size')
+        if k == 0: raise PanicEdge('panic', f'{m}: size must be non-zero')
+        if m == 'windows': parts = [SliceRef(s.ref, s.start + i, s.start + i + k) for i in range(0, max(n - k + 1, 0))]
+        else: parts = [SliceRef(s.ref, s.start + i, min(s.start + i + k, s.end)) for i in range(0, n, k) if m == 'chunks' or i + k <= n]
+        return It('list', parts, 0)
+    if m in ('starts_with', 'ends_with'):
+        o = a[1]; oi = vm.ref_get(o.ref).items[o.start:o.end] if isinstance(o, SliceRef) else list_items(vm, o)
+        if len(oi) > n: return False
+        seg = items[s.start:s.start + len(oi)] if m == 'starts_with' else items[s.end - len(oi):s.end]
+        return all(truth(vm, values_eq(vm, '', x, y)) for x, y in zip(seg, oi))
+    if m == 'swap':
+        i, j = a[1], a[2]
+        if not (isinstance(i, int) and isinstance(j, int)): raise Unmodelled('slice swap with symbolic indices')
+        if not (0 <= i < n and 0 <= j < n): raise PanicEdge('panic', 'slice swap: index out of bounds')
+        items[s.start + i], items[s.start + j] = items[s.start + j], items[s.start + i]; return UNIT
+    if m == 'fill':
+        for i in range(s.start, s.end): items[i] = vm.clone_val(a[1])
+        return UNIT
     raise Unmodelled('slice method ' + m)
 
 
@@ -394,7 +414,7 @@ for _c in ('HashMap', 'BTreeMap', 'HashSet', 'BTreeSet'):
         isset = c.endswith('Set')
 
         @path(f'{c}::new', f'{c}::with_capacity')
-        def _(vm, a, ci): return HMap([], c.startswith('BTree'), vm.fresh('hm'))
+        def _(vm, a, ci): return HMap([], c.startswith('BTree'), vm.fresh('hs' if isset else 'hm'))
 
         @path(f'{c}::len')
         def _(vm, a, ci): return len(hmref(vm, a[0]).entries)
